@@ -410,9 +410,48 @@ Definition net_of (w : wiring) (N : nat) : net :=
   mkNet (map (fun kcd => let '(_, cfg, ds) := kcd in (cfg, init cfg ds (chunk_msgs N) None 0)) (w_boxes w))
         (map snd (w_threads w)).
 
+(* a network from a list of (configuration, can_drive flags) and a list of threads *)
+Definition mk_net (nb : list (config * list bool)) (ths : list thread) (N : nat) : net :=
+  mkNet (map (fun cd => (fst cd, init (fst cd) (snd cd) (chunk_msgs N) None 0)) nb) ths.
+
+(* ---------- the families of Props/C13.v, written out ---------- *)
+(* Chain of L senders: thread 0 is a loader / source plugin feeding mailbox 0, thread j (0 < j < L) a
+   plugin that takes one message of mailbox j-1 (as its only subscriber) and sends one to mailbox j, the
+   last thread is the consumer of mailbox L-1 that stops after p chunks.  Every mailbox has
+   max_messages = c; lz = lazy mode. *)
+Definition chain_prog (lz : bool) (j : nat) : list op :=
+  sender_prog lz j (match j with O => [] | S k => [(k, 0)] end).
+Definition chain_threads (L : nat) (lz : bool) (p : nat) : list thread :=
+  map (fun j => Worker (chain_prog lz j) 0 0) (seq 0 L) ++ [Sink (L - 1) 0 (Some p)].
+Definition chain_boxes (L c : nat) (lz : bool) : list (config * list bool) :=
+  repeat (mkConfig (Some c) lz, [true]) L.
+Definition chain_net (L c : nat) (lz : bool) (p N : nat) : net :=
+  mk_net (chain_boxes L c lz) (chain_threads L lz p) N.
+
+(* One multi-output stage: mailbox 0 is fed by the source, thread 1 (the multi-output plugin's iter) takes
+   from mailbox 0 and sends dicts to mailbox 1 (<Plugin>_divide_outputs), thread 2 (divide_outputs) takes
+   from mailbox 1 and sends to the k output mailboxes 2 .. k+1, gated in lazy mode by the outputs listed in
+   `gated` (the others flow freely).  `sides` are the savers / discarders: (mailbox, subscriber index)
+   pairs of sinks without budget; the consumer is subscriber `it` of output mailbox 2+t.
+   drives j = the can_drive flags of the subscribers of output j. *)
+Definition divider_prog (lz : bool) (k : nat) (gated : list nat) : list op :=
+  (if lz then map OGate gated else []) ++ [OPull 1 0] ++ map OSend (seq 2 k).
+Definition fanout_threads (k : nat) (lz : bool) (gated : list nat) (sides : list (nat * nat))
+                          (t it p : nat) : list thread :=
+  [Worker (sender_prog lz 0 []) 0 0; Worker (sender_prog lz 1 [(0, 0)]) 0 0;
+   Worker (divider_prog lz k gated) 0 0]
+  ++ map (fun ui => Sink (fst ui) (snd ui) None) sides ++ [Sink (2 + t) it (Some p)].
+Definition fanout_boxes (k c : nat) (lz : bool) (gated : list nat) (drives : nat -> list bool)
+  : list (config * list bool) :=
+  [(mkConfig (Some c) lz, [true]); (mkConfig (Some c) lz, [true])]
+  ++ map (fun j => (mkConfig (Some c) (lz && memb (2 + j) gated), drives j)) (seq 0 k).
+Definition fanout_net (k c : nat) (lz : bool) (gated : list nat) (drives : nat -> list bool)
+                      (sides : list (nat * nat)) (t it p N : nat) : net :=
+  mk_net (fanout_boxes k c lz gated drives) (fanout_threads k lz gated sides t it p) N.
+
 (* ---------- the explicit bounds of Props/C13.v ---------- *)
-(* chain of L senders (source + L-1 plugins), every mailbox with capacity c: how far the source can be
-   ahead of what the consumer has taken out of the last mailbox *)
-Definition B_chain (L c : nat) : nat := L * (2 * c + 1).
-(* source -> multi-output plugin -> divider with k outputs *)
-Definition B_fanout (c : nat) : nat := 3 * (2 * c + 1).
+(* chain of L senders (source + L-1 plugins), every mailbox with max_messages = c: how many items the
+   source can have produced beyond the p chunks the consumer takes *)
+Definition B_chain (L c : nat) : nat := 2 * c * L + 1.
+(* source -> multi-output plugin -> divide_outputs -> target output: three mailboxes on the path *)
+Definition B_fanout (c : nat) : nat := 6 * c + 1.
